@@ -594,6 +594,7 @@ func Run(c *lib.Ctx) {
 		"inline-map keys are disjoint from the aliases of the enclosing struct; a struct has at most one inline map and inline structs contain none (C16 well-formedness, GoType.wf)",
 		"types outside the modelled universe (channels, funcs, custom marshalers other than time.Time/time.Duration/uuid.UUID, io.Reader buffers, error values, non-string map keys) are not claimed",
 		"maps behave as dictionaries in Range order (C15) and Equal/Compare/Hash are lawful (C14)",
+		"named types: a fixed family of declared named types (one per scalar kind and width, named []byte, slice, map, array, struct) appears as field type, map value, pointer target and inside any; the model treats `named T` as T (a named type encodes like its underlying type)",
 		"decode history: foreign document forms (a list of numbers or base64 text for []byte, milliseconds or RFC 3339 text for a time, numbers of another kind, decimal text …) are decoded into typed targets on the same process-global types.Decoder, interleaved with the round trips; every such decode is compared with the model's decode and followed by round trips of the target type",
 		"JSON: integers within ±2^53, finite floats, valid UTF-8 text (guards of C16.roundtrip_json); js lines within the guards and without Float32 values are compared with the model's jsonForm + decode, the others are checked by the oracle only",
 		"omitempty: Go tests reflect.Value.IsZero first and then Equal(encoding, encoding of the zero value); the model has only the second test (a zero value encodes like the zero value)",
